@@ -46,7 +46,7 @@ pub fn cfg_for(profile: &str, thorough: bool) -> GenCfg {
         "C01" => GenCfg { profile: "C01", ..base },
         "C02" => GenCfg { profile: "C02", close: true, resize: true, ..base },
         "C03" => GenCfg { profile: "C03", resize: true, close: true, ..base },
-        "C04" => GenCfg { profile: "C04", retain: false, take: false, ..base },
+        "C04" => GenCfg { profile: "C04", retain: false, take: false, close: true, ..base },
         "C06" => GenCfg { profile: "C06", close: true, resize: true, drop_handles: true, ..base },
         "C07" => GenCfg { profile: "C07", resize: true, ..base },
         "C08" => GenCfg { profile: "C08", resize: true, no_runtime_calls: true, drop_handles: true, ..base },
@@ -265,8 +265,8 @@ pub fn gen_managed(rng: &mut Rng, cfg: &GenCfg) -> MScenario {
                         let allow_t = cfg.timeouts;
                         GetT::Explicit {
                             wait: if allow_t { gen_timeout(rng, 40, 30) } else if rng.coin() { Some(0) } else { None },
-                            create: if allow_t { gen_timeout(rng, 70, 0) } else { None },
-                            recycle: if allow_t { gen_timeout(rng, 70, 0) } else { None },
+                            create: if allow_t { gen_timeout(rng, 70, 4) } else { None },
+                            recycle: if allow_t { gen_timeout(rng, 70, 6) } else { None },
                         }
                     };
                     Op::Get {
